@@ -657,6 +657,39 @@ func TestVerif_C07_h1hostile(t *testing.T) {
 	s.Finish()
 }
 
+// c07StuckLoops counts goroutines still running one of the given transport loops. After every
+// connection has been closed by the peer and CloseIdleConnections was called, any such
+// goroutine is stuck (e.g. a read loop blocked on a channel send nobody will ever receive).
+func c07StuckLoops(frames ...string) (int, string) {
+	var n int
+	var first string
+	deadline := time.Now().Add(10 * time.Second)
+	for {
+		buf := make([]byte, 1<<22)
+		buf = buf[:runtime.Stack(buf, true)]
+		n, first = 0, ""
+		for _, g := range strings.Split(string(buf), "\n\n") {
+			for _, f := range frames {
+				if strings.Contains(g, f) {
+					n++
+					if first == "" {
+						first = g
+					}
+					break
+				}
+			}
+		}
+		if n == 0 || time.Now().After(deadline) {
+			break
+		}
+		time.Sleep(100 * time.Millisecond)
+	}
+	if len(first) > 3000 {
+		first = first[:3000]
+	}
+	return n, first
+}
+
 // c07IdleCPU measures process CPU time over 1 s of idleness; it takes the minimum of up to
 // five consecutive windows so that a short burst (GC, a connection still being torn down)
 // is not mistaken for a spinning goroutine — a real spin shows in every window.
